@@ -239,7 +239,8 @@ def run_c15(sc, q, rnd):
 # ---------------------------------------------------------------------------------------------
 # C16: scripted hostile replies
 ENTRIES = {"sdo_read_u32": (0x2000, "u32"), "sdo_read_arr16": (0x1008, "arr16"), "sdo_read_str": (0x1008, "str32"),
-           "sdo_read_array": (0x1C13, None), "sdo_write": (0x2001, None), "sdo_info_list": (0, None)}
+           "sdo_read_array": (0x1C13, None), "sdo_write": (0x2001, None), "sdo_info_list": (0, None),
+           "sdo_info_quantities": (0, None), "sdo_write_array": (0x1C12, None), "sdo_read_array255": (0x1C13, None)}
 
 
 def mbx_msg(length, cnt, mtype, service, body):
@@ -266,14 +267,31 @@ def hostile_reply(rnd, index, cnt, seg, hi=250):
 
 
 def hostile_case(cid, rnd):
-    entry = rnd.choice(["sdo_read_u32", "sdo_read_arr16", "sdo_read_arr16", "sdo_read_str", "sdo_read_str", "sdo_read_array", "sdo_write", "sdo_info_list"])
+    entry = rnd.choice(["sdo_read_u32", "sdo_read_arr16", "sdo_read_arr16", "sdo_read_str", "sdo_read_str", "sdo_read_array", "sdo_write", "sdo_info_list",
+                        "sdo_info_quantities", "sdo_write_array", "sdo_read_array255"])
     index = ENTRIES[entry][0]
     mbx = rnd.choice([16, 17, 20, 24, 32, 64, 64, 128, 1024, 6, 8, 10, 12, 13, 14, 15])
     kind = rnd.choice(["fields", "fields", "seg_fields", "seg_fields", "seg_fields", "random", "truncated", "endless"])
     replies = []
     hi = 127 if entry == "sdo_read_str" else 250          # strings: only the ASCII range decodes
+    if entry in ("sdo_read_array", "sdo_read_array255", "sdo_write_array") and rnd.random() < 0.6:
+        kind = "array_steps"
+        mbx = rnd.choice([16, 17, 24, 64, 128])
     c = dict(id=cid, op="hostile", entry=entry, mailbox_size=mbx, fill=0x55 if entry == "sdo_read_str" else 165, repeat_last=False, kind=kind)
-    if kind == "fields":
+    if kind == "array_steps":
+        # the helper is answered correctly step by step (sub-index 0, then 1, 2, ..) for a while: the count it is told may
+        # be anything up to 255; somewhere a mutated reply may take over
+        n = rnd.choice([0, 1, 3, 16, 17, 200, 254, 255, 255])
+        if entry == "sdo_write_array":
+            # download responses: clear the count, three values, set the count
+            replies = [mbx_msg(10, (k % 7) + 1, 3, 3, [0x60, index & 255, index >> 8, sub, 0, 0, 0, 0]) for k, sub in enumerate([0, 1, 2, 3, 0])]
+        else:
+            replies = [mbx_msg(10, 1, 3, 3, [0x4F, index & 255, index >> 8, 0, n, 0, 0, 0])]
+            replies += [mbx_msg(10, (k % 7) + 1, 3, 3, [0x4B, index & 255, index >> 8, k, k, 0x16, 0, 0]) for k in range(1, n + 1)]
+        if rnd.random() < 0.5 and len(replies) > 1:
+            cut = rnd.randrange(1, len(replies))
+            replies = replies[:cut] + [hostile_reply(rnd, index, 1, False, hi)]
+    elif kind == "fields":
         n = rnd.randint(1, 6)
         replies = [hostile_reply(rnd, index, i + 1, i > 0, hi) for i in range(n)]
         c["repeat_last"] = rnd.random() < 0.3
@@ -306,7 +324,7 @@ def hostile_case(cid, rnd):
         seg = rnd.choice([mbx_msg(3, 2, 3, 3, [0]), mbx_msg(10, 2, 3, 3, [14, 1, 2, 3, 4, 5, 6, 7]), mbx_msg(4, 2, 3, 3, [0, 9]),
                           mbx_msg(10, 2, 3, 3, [0, 1, 2, 3, 4, 5, 6, 7])])
         replies = [first, seg]
-        if entry == "sdo_info_list":
+        if entry in ("sdo_info_list", "sdo_info_quantities"):
             replies = [mbx_msg(10, 1, 3, 8, [0x82, 0, 3, 0, 1, 0, 0, 16]),
                        rnd.choice([mbx_msg(8, 1, 3, 8, [0x82, 0, 3, 0, 0, 0]), mbx_msg(10, 1, 3, 8, [4, 0, 0, 0, 0, 0, 0, 0]),
                                    mbx_msg(10, 1, 3, 8, [0x82, 0, 3, 0, 0x20, 0x20, 0x21, 0x20])])]
@@ -325,7 +343,7 @@ def project_hostile(c):
     if res == "err:Mailbox":
         res = "err:" + c.get("mailbox", "?")
     is_write = entry == "sdo_write"
-    conform = (read_as is not None or is_write) and case.get("kind") in ("fields", "seg_fields", "truncated", "endless")
+    conform = (read_as is not None or is_write) and case.get("kind") in ("fields", "seg_fields", "truncated", "endless")     # (array helpers: monitor only)
     log = [dict(dir=m["dir"], bytes=m["bytes"]) for m in c.get("mailbox_log", [])] if conform else []
     # the device pads what it puts into the mailbox up to the mailbox size with the fill byte: so does the model
     # (Fetched); a logged reply must have at least the 9 bytes every handler looks at
@@ -333,7 +351,7 @@ def project_hostile(c):
         if m["dir"] == "out":
             m["bytes"] = (m["bytes"] + [case.get("fill", 165)] * max(0, case["mailbox_size"] - len(m["bytes"])))[:case["mailbox_size"]]
     dest = dest_rec(read_as) if read_as else dict(kind="exact", n=4)
-    bound = 250000 if entry == "sdo_info_list" else 600 * (dest["n"] + 20)
+    bound = 250000 if entry in ("sdo_info_list", "sdo_info_quantities") else 600 * (dest["n"] + 20) * (12 if entry == "sdo_read_array255" else 1)
     if len(log) > 400 or case["mailbox_size"] < 16:       # the model client looks at 16 bytes of every response
         log, conform = [], False
     # a string destination only takes valid UTF-8: replies with bytes outside ASCII in their data are left to the monitor
